@@ -26,9 +26,8 @@ type putRec struct {
 
 type recorder struct {
 	chain.Store
-	mu     sync.Mutex
-	puts   []putRec
-	notify chan string
+	mu   sync.Mutex
+	puts []putRec
 }
 
 func (r *recorder) Put(ctx context.Context, b *common.Beacon) error {
@@ -42,13 +41,26 @@ func (r *recorder) Put(ctx context.Context, b *common.Beacon) error {
 	r.mu.Lock()
 	r.puts = append(r.puts, rec)
 	r.mu.Unlock()
-	if r.notify != nil {
-		select {
-		case r.notify <- putKey(b):
-		default:
+	return err
+}
+
+func (r *recorder) count() int {
+	r.mu.Lock()
+	defer r.mu.Unlock()
+	return len(r.puts)
+}
+
+// putsSince: how many of the Puts numbered n, n+1, ... were of that beacon
+func (r *recorder) putsSince(n int, key string) int {
+	r.mu.Lock()
+	defer r.mu.Unlock()
+	k := 0
+	for i := n; i < len(r.puts); i++ {
+		if putKey(r.puts[i].b) == key {
+			k++
 		}
 	}
-	return err
+	return k
 }
 
 func (r *recorder) okPuts() []putRec {
